@@ -253,6 +253,15 @@ Theorem stl_facet_normal_scale_invariant : forall c s v, (0 < c)%Z -> facet_ok (
 Proof. exact facet_ok_scale. Qed.
 Print Assumptions stl_facet_normal_scale_invariant.
 
+(* the oracle is tight: two accepted (non-zero) words with the same sign and exponent have significands at most one
+   apart — it pins the stored word down to the correctly rounded one or, when s_k/|s| is within 2^-21 ulp of a
+   rounding boundary, its neighbour across that boundary *)
+Theorem stl_facet_normal_oracle_tight : forall sk S w1 w2 sg m1 m2 e, (0 < S)%Z ->
+  f32_decode w1 = Some (sg, m1, e) -> f32_decode w2 = Some (sg, m2, e) -> m1 <> 0%Z -> m2 <> 0%Z ->
+  fn_word_ok sk S w1 = true -> fn_word_ok sk S w2 = true -> (Z.abs (m1 - m2) <= 1)%Z.
+Proof. exact fn_word_ok_tight. Qed.
+Print Assumptions stl_facet_normal_oracle_tight.
+
 (* mesh level: the check's [mesh_normals_ok] says: for every triangle t, the stored words are the normalised sum of
    the normals of vertices idx[3t], idx[3t+1], idx[3t+2] *)
 Theorem stl_mesh_normals_spec : forall idx nrm fns,
